@@ -40,6 +40,8 @@ type W struct {
 	// Payload: "" strings, "int" unique integers, "float" unique non-integral floats,
 	// "loopint" the counter variable of the producer's for loop (L2 only)
 	Payload string `json:"payload,omitempty"`
+	// CapForm (L2 only): how the constructor argument is written: "" int literal, "none", "neg", "str", "float"
+	CapForm string `json:"cap_form,omitempty"`
 	Nested  bool   `json:"nested_spawn,omitempty"`
 	Twin    bool   `json:"twin,omitempty"`
 	TwinCap int    `json:"twin_cap,omitempty"`
@@ -128,6 +130,11 @@ func gen(r *verifsim.Rng, tier string) (any, hx.Sched) {
 		w.Nested = r.Intn(4) == 0
 		if !w.ArrayPayload {
 			w.Payload = verifsim.Pick(r, []string{"", "", "int", "float", "loopint", "numstr", "obj"})
+		}
+		if r.Intn(8) == 0 {
+			// other constructor forms: no argument, a negative number (a string or float argument is a type error)
+			// (the class treats everything but a non-negative int as "unbuffered")
+			w.CapForm = verifsim.Pick(r, []string{"none", "neg"})
 		}
 		// the interpreter passes thousands of yield points per operation:
 		// keep preemptions sparse outside the focus files
@@ -564,7 +571,7 @@ func evaluate(o *hx.Outcome, w *W, ops []op, res *verifsim.Result) {
 		if pendingSend > 0 && closeReturned {
 			o.Violate("C09/lost-wakeup/send-after-close", "a send is still blocked although the channel was closed")
 		}
-		if pendingSend > 0 && queued < w.Cap {
+		if pendingSend > 0 && queued < w.Cap && w.CapForm == "" {
 			o.Violate("C09/lost-wakeup/send-with-room", fmt.Sprintf("a send is still blocked although only %d of %d buffer slots hold undelivered values", queued, w.Cap))
 		}
 		for _, b := range res.Blocked {
